@@ -993,10 +993,13 @@ async fn build_authoritative_response(
             message.additionals.extend(adds.iter().cloned());
         }
 
+        // NS records owned by a name other than QNAME are the NS set of a zone cut
+        // above QNAME: a referral, whatever the QTYPE (RFC 1034 section 4.3.2 step 3b).
         let is_referral = lookup_records.iter().next().is_some_and(|r| {
             r.record_type() == RecordType::NS
-                && query.query_type() != RecordType::NS
-                && query.query_type() != RecordType::ANY
+                && (LowerName::from(&r.name) != *query.name()
+                    || (query.query_type() != RecordType::NS
+                        && query.query_type() != RecordType::ANY))
         });
 
         if is_referral {
